@@ -754,7 +754,9 @@ class BlockCreateStats(TlbScheme):
 
             def y_deserializer(src):
                 return src.load_uint(32)
-            return cls(type_, cell_slice.load_hashmap_aug_e(256, x_deserializer=CreatorStats.deserialize, y_deserializer=y_deserializer))
+            counters = cell_slice.load_hashmap_aug_e(256, x_deserializer=CreatorStats.deserialize, y_deserializer=y_deserializer)
+            y_deserializer(cell_slice)  # the root extra of the HashmapAugE follows its dictionary reference
+            return cls(type_, counters)
         else:
             raise BlockError(f'BlockCreateStats deserialization error tag: {tag}')
 
